@@ -483,7 +483,9 @@ func runProvider(r *R, pr provRun, report bool) *provOut {
 			out.NewErr = err
 			return
 		}
-		ctx, cancel := context.WithCancel(context.Background())
+		// (the harness's own cancel is not a scheduling point: under a priority schedule the consumer that is to cancel an
+		// unbounded provider could be starved for ever while provider and consumers keep each other runnable)
+		ctx, cancel := context.WithCancel(context.Background()) // nosim
 		defer cancel()
 		runDone := make(chan struct{})
 		go func() {
